@@ -117,7 +117,7 @@ class Run:
         self.trace = Trace(spec=spec)
         self.gates: dict[tuple, asyncio.Event] = {}
         self.waiting: list[tuple] = []
-        self.uid = 1000
+        self.uid = 5000 if spec.get("_resumed") else 1000  # fresh uids of a resumed run never collide with the first run's
         self.externals = list(spec.get("externals", []))
         self.replay_actions = list(replay_actions) if replay_actions is not None else None
         self.runner: Any = None
@@ -341,6 +341,8 @@ async def _interp(run: Run, sdef: dict, ctx: Context, ev: Any, rn: int) -> Any:
                                     {"uids": [e.uid for e in got], "tys": [ET.TY_ID[type(e)] for e in got], "expected": act[1]}))
         elif op == "wait":
             ty, reqk, timeout, wid, wev = act[1], act[2], act[3], act[4], act[5]
+            if wid == "per":  # one waiter id per invocation (concurrent invocations of a step do not share a waiter)
+                wid = f"w{(int(uid) % 80) + 10:02d}"
             kw: dict[str, Any] = {}
             if wid is not None:
                 kw["waiter_id"] = wid
